@@ -277,7 +277,14 @@ func (p *c19) list(r *core.Rand) ([]interface{}, interface{}, string) {
 	if want == nil {
 		want = []interface{}{}
 	}
-	return want, carrier, []string{"iface-strings", "[]string", "[]int", "iface-ints", "[]float64"}[kind]
+	name := []string{"iface-strings", "[]string", "[]int", "iface-ints", "[]float64"}[kind]
+	if r.P(1, 6) {
+		// the application hands over a pointer to the list: it prints, indexes and iterates as the list, and the filters agree
+		pv := reflect.New(reflect.TypeOf(carrier))
+		pv.Elem().Set(reflect.ValueOf(carrier))
+		carrier = pv.Interface()
+	}
+	return want, carrier, name
 }
 
 func jsonList(out string) ([]interface{}, bool) {
@@ -844,12 +851,15 @@ func (p *c19) numbers(rec *core.Recorder, r *core.Rand) {
 	if r.P(1, 40) {
 		// floats beyond the int range: rounding them gives the same whole number back
 		num, den = int64(r.Range(1, 9)), 1
-		v19 := new(big.Rat).SetFrac(new(big.Int).Mul(big.NewInt(num), new(big.Int).Exp(big.NewInt(10), big.NewInt(19), nil)), big.NewInt(1))
+		// (d x 10^19 .. 10^21 are exact float64 values)
+		exp10 := int64(19 + core.Hash64(fmt.Sprint(num, "exp"))%3)
+		hp := 1 + core.Hash64(fmt.Sprint(num, "prec"))%4
+		v19 := new(big.Rat).SetFrac(new(big.Int).Mul(big.NewInt(num), new(big.Int).Exp(big.NewInt(10), big.NewInt(exp10), nil)), big.NewInt(1))
 		if r.Bool() {
 			v19.Neg(v19)
 		}
 		f19, _ := v19.Float64()
-		out, err, res := c19R("{{ v|round }}|{{ v|abs }}", map[string]interface{}{"v": f19})
+		out, err, res := c19R(fmt.Sprintf("{{ v|round }}|{{ v|abs }}|{{ v|round(%d) }}|{{ v|round(%d, 'floor') }}|{{ v|round(%d, 'ceil') }}", hp, hp, hp), map[string]interface{}{"v": f19})
 		rec.Eval("numbers", "huge:"+v19.RatString(), true)
 		cs := map[string]any{"value": v19.RatString()}
 		if res.Panicked {
@@ -857,11 +867,16 @@ func (p *c19) numbers(rec *core.Recorder, r *core.Rand) {
 			return
 		}
 		parts := strings.Split(out, "|")
-		ok := err == nil && len(parts) == 2
+		ok := err == nil && len(parts) == 5
 		if ok {
 			rv, ok1 := new(big.Rat).SetString(parts[0])
 			av, ok2 := new(big.Rat).SetString(parts[1])
 			ok = ok1 && ok2 && rv.Cmp(v19) == 0 && av.Cmp(new(big.Rat).Abs(v19)) == 0
+			for _, part := range parts[2:] {
+				// a whole number rounded to some decimal places is itself
+				pv, okp := new(big.Rat).SetString(part)
+				ok = ok && okp && pv.Cmp(v19) == 0
+			}
 		}
 		if !ok {
 			p.violate(rec, "numbers", "huge:"+v19.RatString(), fmt.Sprintf("round / abs of %s gave %q (err=%v)", v19.RatString(), out, err), cs)
